@@ -427,4 +427,188 @@ def read (g : Array Rat) (lay : Layout) (lines : List Bytes) : Except Err Chart 
   | .error e => .error e
   | .ok r => .ok ⟨hdr, r.1, r.2.1, r.2.2.1, r.2.2.2⟩
 
+/-! ## writer: `BMSMap.write` -/
+
+/-- the in-memory chart the writer looks at. `holds` carry `tail = offset + length` as the double pandas computes. -/
+structure WHold where
+  col : Nat
+  sample : Bytes
+  offset : Rat
+  tail : Rat
+deriving Repr, DecidableEq
+
+structure WChart where
+  title : Bytes
+  artist : Bytes
+  version : Bytes
+  lnEnd : Bytes
+  samples : Dict Bytes          -- id ↦ file, insertion order
+  misc : Dict Bytes
+  bpms : List BcOff             -- list order
+  hits : List HitOut
+  holds : List WHold
+deriving Repr
+
+def b36Digit (n : Nat) : Char := if n < 10 then Char.ofNat (48 + n) else Char.ofNat (55 + n)
+
+/-- `bytes(base_repr(e, 36).zfill(2), "ascii")` for `e < 1296` -/
+def base36 (e : Nat) : Bytes := [b36Digit (e / 36 % 36), b36Digit (e % 36)]
+
+def natDigits : Nat → Nat → List Char
+  | 0, _ => []
+  | fuel + 1, n => if n < 10 then [Char.ofNat (48 + n)] else natDigits fuel (n / 10) ++ [Char.ofNat (48 + n % 10)]
+
+def showNat (n : Nat) : Bytes := natDigits (n + 1) n
+
+def padLeft (k : Nat) (c : Char) (s : Bytes) : Bytes := List.replicate (k - s.length) c ++ s
+
+/-- nearest integer, ties to even (`round` / `format` on an exact value) -/
+def roundHalfEven (q : Rat) : Int :=
+  let f := q.floor
+  let r := q - (f : Rat)
+  if r < 1 / 2 then f else if r > 1 / 2 then f + 1 else if f % 2 = 0 then f else f + 1
+
+/-- `q` rounded to `k` decimals (half-even on the exact value), as a rational -/
+def roundDec (k : Nat) (q : Rat) : Rat := ((roundHalfEven (q * ((10 ^ k : Nat) : Rat)) : Int) : Rat) / ((10 ^ k : Nat) : Rat)
+
+/-- `f"{q:.kf}"` -/
+def showFixed (k : Nat) (q : Rat) : Bytes :=
+  let n := roundHalfEven (q * ((10 ^ k : Nat) : Rat))
+  let a := n.natAbs
+  let ip := a / 10 ^ k
+  let fp := a % 10 ^ k
+  (if n < 0 then ['-'] else []) ++ showNat ip ++ (if k = 0 then [] else '.' :: padLeft k '0' (showNat fp))
+
+/-- exact decimal text of a value with a terminating expansion (every double has one); `none` otherwise.
+Stands for `str(float)`: another text, the same number. -/
+def showExactAux (q : Rat) : Nat → Nat → Option Bytes
+  | 0, _ => none
+  | fuel + 1, k => if (q * ((10 ^ k : Nat) : Rat)).den = 1 then some (showFixed k q) else showExactAux q fuel (k + 1)
+
+def showExact (q : Rat) : Option Bytes := showExactAux q 400 0
+
+structure WRow where
+  snap : Snap
+  channel : Bytes
+  value : Bytes
+deriving Repr, DecidableEq
+
+/-- `sample_map.get(sample, no_sample_default)` for `sample_map = {v: k for k, v in self.samples.items()}` -/
+def sampleId (samples : Dict Bytes) (dflt : Bytes) (sample : Bytes) : Bytes :=
+  ((samples.reverse.find? (fun p => p.2 = sample)).map (·.1)).getD dflt
+
+def mkRows (lay : Layout) (snaps : List Snap) (cols : List Nat) (values : List Bytes) : Except Err (List WRow) :=
+  match snaps, cols, values with
+  | s :: ss, c :: cs, v :: vs =>
+    match channelOf lay c with
+    | none => .error .key                      -- `channel_map[column]`
+    | some ch =>
+      match mkRows lay ss cs vs with
+      | .error e => .error e
+      | .ok r => .ok (⟨s, ch, v⟩ :: r)
+  | _, _, _ => .ok []
+
+structure WSlot where
+  measure : Int
+  channel : Bytes
+  value : Bytes
+  den : Nat
+  num : Nat
+deriving Repr, DecidableEq
+
+def slotOfRow (r : WRow) : WSlot :=
+  let met : Nat := ((r.snap.met.getD 0).floor).toNat
+  ⟨r.snap.measure, r.channel, r.value, r.snap.beat.den * met, r.snap.beat.num.toNat⟩
+
+/-- `find_lcm(dfg["den"].tolist(), 100)` assigned back row by row: each row's new denominator -/
+def newDens (thr : Nat) (rows : List WSlot) : List Nat :=
+  (zipIdxFrom 0 rows).map fun p =>
+    let grp := (zipIdxFrom 0 rows).filter (fun q => q.2.measure = p.2.measure && q.2.channel = p.2.channel)
+    let l := findLcm (grp.map (·.2.den)) thr
+    let pos := (grp.takeWhile (fun q => q.1 ≠ p.1)).length
+    l.getD pos 0
+
+structure WCell where
+  measure : Int
+  channel : Bytes
+  den : Nat          -- `new_den`
+  idx : Nat          -- `int(num * new_den / den)`
+  value : Bytes
+deriving Repr, DecidableEq
+
+def cellOf (s : WSlot) (nd : Nat) : WCell :=
+  ⟨s.measure, s.channel, nd, ((((s.num * nd : Nat) : Rat) / ((s.den : Nat) : Rat)).floor).toNat, s.value⟩
+
+def bytesLe : Bytes → Bytes → Bool
+  | [], _ => true
+  | _ :: _, [] => false
+  | a :: s, b :: t => if a < b then true else if b < a then false else bytesLe s t
+
+def cellKeyLe (a b : WCell) : Bool :=
+  if a.measure < b.measure then true else if b.measure < a.measure then false
+  else if a.channel ≠ b.channel then bytesLe a.channel b.channel
+  else decide (a.den ≤ b.den)
+
+def sameLine (a b : WCell) : Bool := a.measure = b.measure && a.channel = b.channel && a.den = b.den
+
+/-- group keys in `groupby(["measure", "channel", "new_den"])` order -/
+def lineKeys (cells : List WCell) : List WCell :=
+  (isort cellKeyLe cells).foldr (fun c acc => match acc with
+    | [] => [c]
+    | d :: _ => if sameLine c d then acc else c :: acc) []
+
+/-- `seq = [b"00"] * den; for row in group: seq[int(num)] = value` -/
+def fillSeq (den : Nat) (cells : List WCell) : List Bytes :=
+  cells.foldl (fun seq c => seq.set c.idx c.value) (List.replicate den ['0', '0'])
+
+def lineOf (cells : List WCell) (k : WCell) : Bytes :=
+  let grp := cells.filter (sameLine k)
+  '#' :: padLeft 3 '0' (showNat k.measure.toNat) ++ k.channel ++ [':'] ++ (fillSeq k.den grp).flatten
+
+/-- `_write_notes` up to the slot table: one cell per written object (hits, hold heads, hold tails, tempo points) -/
+def writeCells (g : Array Rat) (lay : Layout) (dflt : Bytes) (c : WChart) : Except Err (List WCell) := do
+  if c.bpms.any (fun b => b.met ≠ defMet) then .error .unsupported          -- channel-02 lines: outside C05
+  let tm := sortBcOff c.bpms
+  let hs ← liftT (snaps g tm (c.hits.map (·.offset)))
+  let hits ← mkRows lay hs (c.hits.map (·.col)) (c.hits.map (fun h => sampleId c.samples dflt h.sample))
+  let ls ← liftT (snaps g tm (c.holds.map (·.offset)))
+  let heads ← mkRows lay ls (c.holds.map (·.col)) (c.holds.map (fun h => sampleId c.samples dflt h.sample))
+  let ts ← liftT (snaps g tm (c.holds.map (·.tail)))
+  let tails ← mkRows lay ts (c.holds.map (·.col)) (c.holds.map (fun _ => c.lnEnd))
+  let bs ← liftT (snaps g tm (c.bpms.map (·.offset)))
+  let bpms : List WRow := (zipIdxFrom 0 bs).map (fun p => ⟨p.2, lay.exbpmCh, base36 (p.1 + 1)⟩)
+  let slots := (hits ++ heads ++ tails ++ bpms).map slotOfRow
+  .ok ((slots.zip (newDens Generated.BMS.lcmThreshold slots)).map (fun p => cellOf p.1 p.2))
+
+/-- the line loop: one line per (measure, channel, new_den) group, in `groupby` order -/
+def linesOfCells (cells : List WCell) : List Bytes := (lineKeys cells).map (lineOf cells)
+
+/-- `_write_notes`: the data lines, in output order -/
+def writeNotes (g : Array Rat) (lay : Layout) (dflt : Bytes) (c : WChart) : Except Err (List Bytes) :=
+  match writeCells g lay dflt c with
+  | .error e => .error e
+  | .ok cells => .ok (linesOfCells cells)
+
+/-- `_write_file_header`: the header lines (an empty `ln_obj` line when there is no `#LNOBJ` id, as the code joins it) -/
+def writeHeader (c : WChart) : Except Err (List Bytes) :=
+  match c.bpms with
+  | [] => .error (.timing .index)                       -- `self.bpms[0]`
+  | b0 :: _ =>
+    if c.bpms.length ≥ Generated.BMS.maxBpms then .error .assert else
+    match showExact b0.bpm with
+    | none => .error .unsupported
+    | some bpmText =>
+      .ok (["#TITLE ".toList ++ c.title, "#ARTIST ".toList ++ c.artist, "#BPM ".toList ++ bpmText,
+            "#PLAYLEVEL ".toList ++ c.version]
+           ++ c.misc.map (fun kv => '#' :: kv.1 ++ [' '] ++ kv.2)
+           ++ [if c.lnEnd.isEmpty then [] else "#LNOBJ ".toList ++ c.lnEnd]
+           ++ (zipIdxFrom 1 c.bpms).map (fun p => "#BPM".toList ++ base36 p.1 ++ [' '] ++ showFixed Generated.BMS.exbpmDecimals p.2.bpm)
+           ++ c.samples.map (fun kv => "#WAV".toList ++ kv.1 ++ [' '] ++ kv.2))
+
+/-- `BMSMap.write(note_channel_config, no_sample_default)` as the list of `\r\n`-separated lines -/
+def write (g : Array Rat) (lay : Layout) (dflt : Bytes) (c : WChart) : Except Err (List Bytes) := do
+  let h ← writeHeader c
+  let n ← writeNotes g lay dflt c
+  .ok (h ++ [[]] ++ n)
+
 end Reamber.BMS
